@@ -213,6 +213,8 @@ pub fn check_pair(left: &str, right: &str, flag_sets: &[&[&str]], n_interp: usiz
         }
         if problems.iter().any(|p| !p.readable) { continue; }
         let (fw, bw) = (family(&problems, "forward"), family(&problems, "backward"));
+        // the direction of a problem is read off its file name; if the naming scheme is not recognised the harness cannot judge
+        if fw.len() + bw.len() != problems.len() { fails.push(Failure { property: "harness", input: what.clone(), detail: format!("problem files are not named forward*/backward*: {:?}", problems.iter().map(|p| p.file.clone()).collect::<Vec<_>>()) }); return; }
         let mut got = Vec::new();
         for (k, m) in samples.iter().enumerate() {
             st.evaluations += 1;
